@@ -29,6 +29,9 @@ def _solve_one(args):
                ({}, timeout_ms)]
     r = z3.unknown
     backend = "z3"
+    res = "unknown"
+    model = None
+    smt2 = None
     for k, (opts, ms) in enumerate(configs):
         s = z3.Solver()
         s.set("timeout", ms)
@@ -41,26 +44,24 @@ def _solve_one(args):
             return idx, "error:" + str(e)[:200], time.time() - t0, None, "z3"
         if r != z3.unknown:
             backend = "z3" if k == 0 else f"z3[{k}]"
+            res = str(r)
+            if r == z3.sat and want_model:
+                try:
+                    model = extract_model(ob, s.model())
+                except Exception as e:  # pragma: no cover
+                    model = {"__error__": str(e)[:200]}
             break
-    res = str(r)
-    model = None
-    if r == z3.sat and want_model:
-        try:
-            m = s.model()
-            model = extract_model(ob, m)
-        except Exception as e:  # pragma: no cover
-            model = {"__error__": str(e)[:200]}
-    if r == z3.unknown:
-        # second opinion: cvc5 binary on the same text
-        try:
-            txt = s.to_smt2()
-            res2 = run_cvc5(txt, max(5, timeout_ms // 1000))
-            if res2 in ("unsat", "sat"):
-                # a cvc5 `sat` on a quantified VC is not trusted as a refutation; keep unknown unless unsat
+        if k == 0:
+            # second back end right after the first failed attempt: cvc5 on the same text.  Only `unsat` is
+            # taken from it (a `sat` on a quantified VC is not a trusted refutation; replay decides).
+            try:
+                smt2 = s.to_smt2()
+                res2 = run_cvc5(smt2, max(3, first // 1000))
                 if res2 == "unsat":
                     res, backend = "unsat", "cvc5"
-        except Exception:
-            pass
+                    break
+            except Exception:
+                pass
     return idx, res, time.time() - t0, model, backend
 
 
